@@ -9,7 +9,8 @@
    first-occurrence order, [survivor] Griffe's tie-break (a later binding wins, except that an attribute assignment
    directly inside an `if`/`except` does not displace an existing member). *)
 From Coq Require Import List ZArith String Bool Arith.
-From Verif Require Import Lib.Sexp Model.C01_base Gen.C01_tables Model.C01_visitor Proofs.C01_visitor Proofs.C01_vis.
+From Verif Require Import Lib.Sexp Model.C01_base Gen.C01_tables Gen.C01_dispatch Model.C01_visitor Model.C01_content Model.C01_raw
+  Proofs.C01_visitor Proofs.C01_vis Proofs.C01_content Proofs.C01_raw.
 Import ListNotations.
 Open Scope string_scope. Open Scope list_scope. Open Scope nat_scope.
 
@@ -87,3 +88,121 @@ Theorem C01_visibility_table : forall i, vin_consistent i = true ->
   is_public i = Some (doc_is_public i).
 Proof. exact visibility_table. Qed.
 Print Assumptions C01_visibility_table.
+
+(* ---------------------------------------------------------------------------------------------------------------
+   Content of the members (Model/C01_content.v).  [level_details_list k path g pk None body] lists, in source order,
+   the bindings a level makes together with everything the visitor reads off the statement (line span, decorators,
+   attribute labels of the scope kind, the docstring candidate); [step] is what one binding does to the member
+   currently bound to its name; [run_table] folds [step] over the bindings starting from the empty table.
+   [minfo] forgets the sub-members of a member table: (name, kind, span, runtime flag, labels, docstring span, target). *)
+
+(* Module level: the member table -- names, their order, and for each member kind, line span, runtime flag, labels,
+   docstring span and alias target -- is the declarative table.  No hypothesis: accessor decorators (x.setter) and
+   @overload definitions are covered by [step]. *)
+Theorem C01_member_table : forall mname body r,
+  run_visit mname body = Ok r ->
+  minfo (r_members r) = run_table (level_details_list InModule mname false PScope None body) [].
+Proof. exact module_table. Qed.
+Print Assumptions C01_member_table.
+
+(* ... read one name at a time *)
+Theorem C01_member_content : forall mname body r n,
+  run_visit mname body = Ok r ->
+  option_map oinfo (lookup n (r_members r)) = content n None (level_details_list InModule mname false PScope None body).
+Proof. exact module_member_content. Qed.
+Print Assumptions C01_member_content.
+
+(* ... and for every class statement wherever it is evaluated (any scope, depth, guard): the class object carries its
+   own info (labels = decorator-derived, docstring = head string of the body) and the table of its body, in which the
+   attributes assigned through self.<name> in its __init__ are instance attributes of the class. *)
+Theorem C01_member_table_nested : forall g pk nd ln dln eln name ds body own up,
+  exists o, lookup name (fmembers (l_own (sem_stmt g pk nd (SCls ln dln eln name ds body) own up))) = Some o /\
+            oinfo o = cls_info g ln dln eln ds body /\
+            minfo (omembers o) = run_table (level_details_list InClass (child_path own name) g PScope None body) [].
+Proof. exact class_table. Qed.
+Print Assumptions C01_member_table_nested.
+
+(* The function object of a class's __init__ keeps the definitions, classes and imports of its body as its members
+   (assignments bind nothing on it), as long as it is the member bound to its name. *)
+Theorem C01_init_function_members : forall g pk nd ln dln eln name a ds body own up o,
+  descends own name a ds = true ->
+  def_installed (fmembers own) name ds = true ->
+  lookup name (fmembers (l_own (sem_stmt g pk nd (SDef ln dln eln name a ds body) own up))) = Some o ->
+  ikind (oinfo o) = KFun ->
+  minfo (omembers o) = run_table (level_details_list InInit (child_path own name) g PFunction None body) [].
+Proof. exact init_function_table. Qed.
+Print Assumptions C01_init_function_members.
+
+(* The detailed bindings are the plain bindings of the theorems above with content attached. *)
+Theorem C01_details_refine_bindings : forall k path g pk follow l, k <> InInit ->
+  flat_map to_bindings (level_details_list k path g pk follow l) = level_bindings_list k path g pk l.
+Proof. exact details_refine_bindings. Qed.
+Print Assumptions C01_details_refine_bindings.
+
+(* Decorator-derived labels, for every decorator list: a label is present exactly when the documented table
+   ([doc_labels]: property, staticmethod, classmethod, abc.abstractmethod, functools.cache / lru_cache /
+   cached_property, cached_property.cached_property, dataclasses.dataclass) gives it for the callable path of one of the
+   decorators; the labels form a set.  (Class labels are [decorators_to_labels ds], see [cls_info].) *)
+Theorem C01_decorator_labels_documented : forall ds,
+  (forall l, In l (decorators_to_labels ds) <-> exists d, In d ds /\ In l (doc_deco_labels d)) /\
+  NoDup (decorators_to_labels ds).
+Proof. exact decorator_labels_documented. Qed.
+Print Assumptions C01_decorator_labels_documented.
+
+(* Labels of a function or property-attribute definition: "async" for a coroutine plus the decorator-derived ones. *)
+Theorem C01_definition_labels_documented : forall a ds,
+  (forall l, In l (def_labels a ds) <-> (a = true /\ l = "async") \/ exists d, In d ds /\ In l (doc_deco_labels d)) /\
+  NoDup (def_labels a ds).
+Proof. exact definition_labels_documented. Qed.
+Print Assumptions C01_definition_labels_documented.
+
+(* Attribute docstrings, for every statement list: the bindings of the list are those of its statements, each taken
+   with the docstring candidate [doc_after l i] = the string statement at the next index of the same list (its
+   constant's line span), and nothing else (not the first statement of a following else / finally block). *)
+Theorem C01_attribute_docstring_follows : forall k path g pk l,
+  level_details_list k path g pk None l = flat_map (fun p => level_details k path g pk (snd p) (fst p)) (with_next l) /\
+  init_details_list g pk None l = flat_map (fun p => init_details g pk (snd p) (fst p)) (with_next l) /\
+  forall i, nth_error (with_next l) i = match nth_error l i with Some s => Some (s, doc_after l i) | None => None end.
+Proof. exact attribute_docstring_follows. Qed.
+Print Assumptions C01_attribute_docstring_follows.
+
+(* ---------------------------------------------------------------------------------------------------------------
+   Raw modules (Model/C01_raw.v): trees of Python AST nodes tagged with their class names, lowered to statements by the
+   visitor's own decision tables, regenerated from visitor.py / assignments.py into Gen/C01_dispatch.v on every run:
+   [visit_handlers] (which kinds have a visit_ method; all others go to generic_visit), [name_builders] (which target
+   nodes get_name accepts), [cond_parent_kinds], [type_checking_tests], ... *)
+
+(* Membership over the regenerated tables: for every raw module the tables can lower, the visitor does not raise,
+   the members are the bound names once each in first-binding order, and the member table is the declarative one. *)
+Theorem C01_raw_member_table : forall mname raw body r,
+  lower_module raw = Some body -> run_visit mname body = Ok r ->
+  map fst (r_members r) = first_names [] (level_bindings_list InModule mname false PScope body) /\
+  minfo (r_members r) = run_table (level_details_list InModule mname false PScope None body) [].
+Proof. exact raw_member_table. Qed.
+Print Assumptions C01_raw_member_table.
+
+Theorem C01_raw_visit_total : forall mname raw body,
+  lower_module raw = Some body -> exists r, run_visit mname body = Ok r.
+Proof. exact raw_visit_total. Qed.
+Print Assumptions C01_raw_visit_total.
+
+(* A node of ANY kind without visit_ method (for, while, with, try, except handler, match, case, ...) binds at its
+   level exactly what the statements of its fields bind, field after field; those are conditional re-assignments
+   exactly when the kind is one of [cond_parent_kinds]. *)
+Theorem C01_generic_kind_transparent : forall kind fields s,
+  handler_of kind = None -> lower (RNode kind PNone fields) = Some s ->
+  exists fs, lower_fields fields = Some fs /\
+    forall k path g pk nd,
+      level_bindings k path g pk s =
+        flat_map (fun f => level_bindings_list k path g (if str_mem kind cond_parent_kinds then PHandler else POther) f) fs /\
+      level_details k path g pk nd s =
+        flat_map (fun f => level_details_list k path g (if str_mem kind cond_parent_kinds then PHandler else POther) None f) fs.
+Proof. exact generic_kind_transparent. Qed.
+Print Assumptions C01_generic_kind_transparent.
+
+(* An assignment binds names only when get_name accepts every one of its targets ([name_builders]: Name, and Attribute
+   chains ending in a Name); one rejected target (subscript, tuple, starred, call...) and the statement binds nothing. *)
+Theorem C01_targets_accepted : forall ts,
+  names_scope (map lower_target ts) = None <-> exists t, In t ts /\ get_name t = None.
+Proof. exact targets_accepted. Qed.
+Print Assumptions C01_targets_accepted.
